@@ -200,8 +200,9 @@ extern void (*g_abort_in_fiber)(int kind);
 /* work meter (variant "work": the library objects are compiled with -fsanitize-coverage=trace-pc): the number of basic
  * blocks of library code executed, a deterministic, machine-independent measure of how much an operation did */
 extern uint64_t g_work, g_work_at_try;
+extern unsigned g_solo_yields;
 #define TRY(stmt) do { \
-        g_aborted = 0; g_trap_armed = 1; simheap_op_begin(); g_work_at_try = g_work; \
+        g_aborted = 0; g_trap_armed = 1; simheap_op_begin(); g_work_at_try = g_work; g_solo_yields = 0; \
         if (_setjmp(g_trap_jmp) == 0) { g_inlib = 1; stmt; } \
         g_inlib = 0; g_trap_armed = 0; simheap_op_end(); \
     } while (0)
